@@ -56,7 +56,7 @@ def run(ctx: Ctx) -> int:
         "retained label and `*` x patterns of 1-4 instructions drawn from the program itself (straight-line chains, textually adjacent non-chains, overlapping, absent). "
         "Reachability label -> instruction and instruction -> match is decided by z3's fixedpoint engine for two edge relations (not crossing calls / union of both readings "
         "of a callsub); reported matches must lie between the two, `covered` between the corresponding path sets",
-        [R.match_regex, R._find_instructions, R._is_match, R._is_equal, R.parse_regex, R._find_label],
+        [lambda: R.match_regex, lambda: R._find_instructions, lambda: R._is_match, lambda: R._is_equal, lambda: R.parse_regex, lambda: R._find_label],
         {"pattern_length": "1..2 quick, 1..4 thorough"},
         ["completeness is demanded only for occurrences reachable without crossing a call; matches reachable only through a call are counted (counters.only_through_call)",
          "pattern texts are taken verbatim from the program, so spelling normalisation of literals is not exercised here (C16)"],
